@@ -44,6 +44,7 @@ def run(ctx, rep):
     r4(ctx, rep)
     r5(ctx, rep)
     r6(ctx, rep)
+    r7(ctx, rep)
 
 
 # ---------------------------------------------------------------------------
@@ -239,3 +240,20 @@ def r6(ctx, rep):
                         f'Access.enforce yields {sorted(c[0] for c in mc)}, the {exp} frame condition is '
                         f'{sorted(c[0] for c in want)}')
     rep.floor('C04.R6', 'modal logics', n, 42)
+
+
+def r7(ctx, rep):
+    """The helpers that decide *which* nodes / constants / worlds a rule is applied to, folded as inductive steps."""
+    from .. import helpersfold
+    m = ctx.m
+    R = rep.rule('C04.R7', 'applicability bookkeeping folded: candidate set = filter-passing unticked nodes; every tracked universal node '
+                           'gets every constant on the branch (its own included), one target per unapplied constant; visible-world index, '
+                           'unserial worlds and per-node/world counters record exactly what happened')
+    for fold in (helpersfold.fold_filter_cache, helpersfold.fold_nodeconsts, helpersfold.fold_extended_quantifier_targets,
+                 helpersfold.fold_world_index, helpersfold.fold_unserial, helpersfold.fold_counts):
+        res, cons = fold(m)
+        rep.consult(*cons)
+        for ok, case, detail in res:
+            rep.instance(R, ok=ok, sample=dict(fold=fold.__name__, case=case), nontrivial=(fold.__name__, case))
+            if not ok:
+                rep.finding(R, f'C04.R7/{fold.__name__[5:]}/{case}', cons[0].split(' ')[0], fold.__name__[5:], f'{case}: {detail}')
